@@ -89,3 +89,9 @@ claim('C14', 'abstract interpretation of the code generator per target version o
       'sizes against CPython\'s _inline_cache_entries, and single ownership of the code array and of the stack accounting fields.',
       'Does not decide that stacksize bounds the real operand depth, that constant/name/local indices are in range, jump target values, or the line table.',
       'DESIGN.md §3 C14')
+
+claim('C08', 'typestate analysis of impl Lexer over structured HIR (characters known available; consumed vs appended characters; units of column arithmetic; indent/dedent pairing)',
+      'Decides: no consume().unwrap() without a character known available (totality at end of input), the column advance of every escape arm (21 known findings: escapes drift), '
+      'column arithmetic in characters not bytes, Indent/Dedent pairing with the indent stack and EOF only on an empty stack.',
+      'Termination of the token loop and the columns of multi-line tokens are not decided. Entry contexts of lex_num_dot / lex_exponent are frozen from the call sites.',
+      'DESIGN.md §3 C08')
